@@ -60,7 +60,7 @@ CLAIMED = {
     "C10": (
         "Lean 4 theorems on a hand-written interaction-tree model of the controller + differential correspondence (exhaustive reply-tree enumeration); per-operation refinement theorems Prog.ConvsIn Spec and a reply-classification theorem",
         "For configure, configure-if-needed, send-pages, show, load-next and shut-down: every conversation against every reply script satisfies the documented protocol stated as inductive relations on conversations (Spec/CtrlProtocol.lean: EnsureOK/EnsureStop, TransferSpec, ConfigureSpec, ConfigureIfNeededSpec, SendPagesSpec, SwitchSpec, ShutDownSpec), with the prescribed outcome; polling fuel never binds; and *_class: messages and outcome depend only on the class of each reply (own report s / own ack o / silence / unrelated / bus error), which extends the exhaustive finite-alphabet enumeration to all replies (all 65536 addresses, arbitrary frames). Tie: the reply-tree enumeration compares model trace+outcome with the real Sign on a recording scripted SignBus and with an independent state-machine port of the protocol in the harness.",
-        "Spec relations were written from the doc comments of sign.rs; the converse inclusion (every spec conversation is produced) is not proved. u16 counter limit as in C09.",
+        "Spec relations were written from the doc comments of sign.rs. For configure, configure-if-needed, send-pages and shut-down the converse is proved too (Props/C10_exact.lean: a conversation satisfies the protocol iff the controller produces it; the protocol is functional in the replies); for show / load-next only the refinement direction (the polling loop needs fuel in the model). u16 counter limit as in C09.",
         "§6 C10"),
     "C11": (
         "Lean 4 theorems on a hand-written interaction-tree model of the controller + differential correspondence (exhaustive reply-tree enumeration); structural predicates AllSends / Strict / Respects on interaction trees lifted to all runs",
@@ -95,8 +95,8 @@ CLAIMED = {
         "§6 C16"),
     "C17": (
         "Lean 4 theorems on a hand-written model + differential correspondence model vs code; exact simulation theorem between the serial path and the direct path",
-        "read_written / wire_lossless (message -> frame -> bytes -> line -> frame -> message is the identity on canonical messages), canonical_toMsg, odk_forwards, odk_bad_line (undecodable line = communication error, bus untouched, nothing written), busStep_reply (a virtual bus replies only where a reply is due, with a canonical message), viaSerial_eq, runVia_eq_runStrict (the whole path Sign -> SerialSignBus -> bytes -> Odk -> VirtualSignBus equals the direct run except that an unanswered due reply is a bus error; nothing is left in the pipe), runStrict_eq_runOn / transparent_partial, configure/sendPages/shutDown canonical. Tie: operation sequences run through the real serial path over an in-memory byte pipe and directly, success and final state/type/pages compared with each other and with the model; raw valid / unknown / invalid lines injected at the bridge.",
-        "PARTIAL: the last step (a controller operation cannot succeed directly while a due reply went unanswered) is proved only up to the hypothesis Answered; it is covered per operation by C11's fail-stop theorems plus present_answers, and end to end by the correspondence. Real serial ports and timeouts are outside the model.",
+        "read_written / wire_lossless (message -> frame -> bytes -> line -> frame -> message is the identity on canonical messages), canonical_toMsg, odk_forwards, odk_bad_line (undecodable line = communication error, bus untouched, nothing written), busStep_reply (a virtual bus replies only where a reply is due, with a canonical message), viaSerial_eq, runVia_eq_runStrict (the whole path Sign -> SerialSignBus -> bytes -> Odk -> VirtualSignBus equals the direct run except that an unanswered due reply is a bus error; nothing is left in the pipe), runStrict_eq_runOn / transparent_partial, and — with no side condition — configure_transparent, configureIfNeeded_transparent, sendPages_transparent, showLoadedPage_transparent, loadNextPage_transparent, shutDown_transparent (same success and returned value, same virtual signs, nothing left in the pipe, on every virtual bus; present signs always answer hello / query, unacknowledged requests fail on both paths, an absent address fails quietly on both), two_ops_transparent for sequences. Tie: operation sequences run through the real serial path over an in-memory byte pipe and directly, success and final state/type/pages compared with each other and with the model; raw valid / unknown / invalid lines injected at the bridge.",
+        "The byte streams are modelled as unbounded in-memory queues (what the harness uses); real serial ports, timeouts and partial line delivery between the two ends are outside the model (C15/C16 cover the stream contracts). The model's polling fuel must be >= 1.",
         "§6 C17"),
     "C18": (
         "Lean 4 theorems on a hand-written model + differential correspondence model vs code; wall-clock time measured, sleep events proved",
